@@ -21,6 +21,7 @@ CONSTANTS
   PairFirst = {0, 1, 2, 3, 4, 5, 6}
   TypedFlush = {TRUE}
   Interleave = TRUE
+  MaxAbandon = 1
   Bug = {}
 INVARIANTS TypeOK DeliveredIsPrefixOfSent AcceptedNeverRejected TypedLayerTotal NoSpuriousMessage WireOK DoneDeliversAll
 CHECK_DEADLOCK FALSE
